@@ -361,6 +361,20 @@ func (g *G) listLit() Item {
 		{fmt.Sprintf("[]float64([%s, %s])", a, b), fmt.Sprintf("[]float64{float64(%s), float64(%s)}", a, b), "cast"},
 	}
 	f := forms[g.Intn(len(forms), "form")]
+	if g.Chance(30, "typed-target") {
+		// the literal meets a target type: typed variable, function result, struct field, call argument
+		l1, l2 := g.Intn(9, "l1"), g.Intn(9, "l2")
+		typed := []form{
+			{fmt.Sprintf("var x []float64 = [%d, %d]", l1, l2), fmt.Sprintf("var x []float64 = []float64{%d, %d}", l1, l2), "target-float-var"},
+			{fmt.Sprintf("var x []interface{} = [%d, \"a\"]", l1), fmt.Sprintf("var x []interface{} = []interface{}{%d, \"a\"}", l1), "target-any-var"},
+			{fmt.Sprintf("x := func() []int {\n\treturn [%s, %s]\n}()", a, b), fmt.Sprintf("x := func() []int {\n\treturn []int{%s, %s}\n}()", a, b), "target-result"},
+			{fmt.Sprintf("x := struct{ v []int64 }{v: [%d, %d]}.v", l1, l2), fmt.Sprintf("x := struct{ v []int64 }{v: []int64{%d, %d}}.v", l1, l2), "target-field"},
+		}
+		f = typed[g.Intn(len(typed), "tform")]
+		body := "fmt.Printf(\"  %T %v %d\\n\", x, x, len(x))\nflush(false)"
+		return Item{Kind: "listlit", X: f.x + "\n" + body, G: f.g + "\n" + body,
+			Key: "listlit/" + f.name + "/" + f.x, NonTrivial: true, Labels: []string{"elem=" + f.name}}
+	}
 	if f.name == "float" || f.name == "cast" {
 		// float64(t(...)) on the Go side must see the same int expression: only constant ints are
 		// converted implicitly by XGo, so use literals here.
@@ -389,6 +403,19 @@ func (g *G) mapLit() Item {
 		{fmt.Sprintf(`{ts("k", "a"): %s}`, a), fmt.Sprintf(`map[string]int{ts("k", "a"): %s}`, a), "tracedkey"},
 	}
 	f := forms[g.Intn(len(forms), "form")]
+	if g.Chance(30, "typed-target") {
+		typed := []form{
+			{`var x map[string]float64 = {"a": 1, "b": 2}`, `var x map[string]float64 = map[string]float64{"a": 1, "b": 2}`, "target-float-var"},
+			{fmt.Sprintf(`var x map[string]interface{} = {"a": %s}`, a), fmt.Sprintf(`var x map[string]interface{} = map[string]interface{}{"a": %s}`, a), "target-any-var"},
+			{fmt.Sprintf("x := func() map[string]int {\n\treturn {\"k\": %s}\n}()", a), fmt.Sprintf("x := func() map[string]int {\n\treturn map[string]int{\"k\": %s}\n}()", a), "target-result"},
+			{`var x map[string]int = {}`, `var x map[string]int = map[string]int{}`, "target-empty"},
+			{fmt.Sprintf(`var x map[int][]float64 = {1: [%s > 1 ? 1 : 2]}`, "0"), "", "skip"},
+		}
+		t := typed[g.Intn(len(typed)-1, "tform")]
+		body := "fmt.Printf(\"  %T %v %d\\n\", x, x, len(x))\nflush(false)"
+		return Item{Kind: "maplit", X: t.x + "\n" + body, G: t.g + "\n" + body,
+			Key: "maplit/" + t.name + "/" + t.x, NonTrivial: true, Labels: []string{"elem=" + t.name}}
+	}
 	body := "fmt.Printf(\"  %%T %%v %%d\\n\", x, x, len(x))\nflush(false)"
 	return Item{Kind: "maplit", X: "x := " + f.x + "\n" + body, G: "x := " + f.g + "\n" + body,
 		Key: "maplit/" + f.name + "/" + f.x, NonTrivial: strings.Contains(f.x, "t("), Labels: []string{"elem=" + f.name}}
